@@ -5,6 +5,7 @@ mod c07;
 mod c08;
 mod c09;
 mod c10;
+mod c11;
 mod c17;
 mod common;
 mod refmodel;
@@ -101,6 +102,7 @@ fn main() {
         "C08" => c08::run(&ctx),
         "C09" => c09::run(&ctx),
         "C10" => c10::run(&ctx),
+        "C11" => c11::run(&ctx),
         _ => usage(),
     };
     let code = finish(&ctx, &rep, t0.elapsed().as_secs_f64());
